@@ -132,6 +132,12 @@ func runOne(lg *logger, of *os.File, in input) {
 
 	lg.line("STAGE %d parse", idx)
 	o, pres := runParse(filename, in.text)
+	if pres.class != clsPanic && pres.class != clsBadPos {
+		// the same input through the parser's other number mode
+		if hres := runParseHex(filename, in.text); hres.class == clsPanic || hres.class == clsBadPos {
+			pres = hres
+		}
+	}
 	lg.line("PARSED %d %s %s ## %s", idx, pres.class, dash(pres.site), pres.detail)
 
 	var ires stageResult
